@@ -68,6 +68,7 @@ def run(ctx, rep):
         for pold, pnew in itertools.product((a, b, x, a_eq, x_eq), (a, c, x)):
             s = Params(params)
             s.params = tuple(params)
+            s.__srcclass__ = (m, ClassRef(LEX, 'Predicated'))
             s.predicate = lambda ps: ('PRED', tuple(ps))
             r = it.safe(f_sub, [s, pnew, pold])
             want = s if pnew == pold else ('PRED', tuple(pnew if p == pold else p for p in params))
@@ -84,6 +85,7 @@ def run(ctx, rep):
         if ok:
             s = Params((a, x, b, a))
             s.params = (a, x, b, a)
+            s.__srcclass__ = (m, ClassRef(LEX, 'Predicated'))
             r = it.safe(g, [s])
             want = frozenset(p for p in (a, x, b, a) if p._typ is T)
             ok = r == want
@@ -190,6 +192,7 @@ def run(ctx, rep):
     same = child(3)
     for label, kids in (('distinct', (child(1), child(2))), ('identical', (same, same)), ('unary', (child(4),))):
         ops = Operands(kids)
+        ops.__srcclass__ = (m, ClassRef(LEX, 'Operated'))
         ops.operator, ops.operands, ops.lhs, ops.rhs = OP, tuple(kids), kids[0], kids[-1]
         for attr in ATTRS:
             g = getter_or_attr(m, 'Operated', attr)
@@ -210,6 +213,7 @@ def run(ctx, rep):
                             f'{label} operands: is not the union/concatenation (in operand order, with multiplicity) of the operands\' {attr} (got {r!r}, expected {want!r})')
     kids = (child(1), child(2))
     ops = Operands(kids)
+    ops.__srcclass__ = (m, ClassRef(LEX, 'Operated'))
     ops.operator, ops.operands, ops.lhs, ops.rhs = OP, tuple(kids), kids[0], kids[-1]
     fo = m.func(LEX, 'Operated.substitute')
     rep.consult(m.loc(LEX, fo) + ' Operated.substitute')
